@@ -67,13 +67,13 @@ func c05BitmapDelta(g *c05Geo, before []byte, es extents, wantBefore uint64, win
 	for i := range es {
 		lo := es[i].startingBlock
 		hi := lo + uint64(es[i].count)
-		var inside uint64
+		var covered uint64
 		for _, w := range windows {
 			wlo := uint64(g.fdb + w.group*g.bpg + w.from)
 			whi := uint64(g.fdb + w.group*g.bpg + w.to)
-			inside += vp.IteU64(lo >= wlo, 1, 0) & vp.IteU64(hi <= whi, 1, 0)
+			covered += c05Overlap(c05Region{lo, hi}, c05Region{wlo, whi})
 		}
-		wrong += vp.IteU64(inside >= 1, 0, 1)
+		wrong += vp.IteU64(covered == hi-lo, 0, 1)
 	}
 	return
 }
@@ -173,14 +173,14 @@ func VP_C05_alloc_fresh_2k() {
 }
 
 // c05Dealloc: deallocateExtents of one extent [start, start+count) inside a range that is in use.
-func c05Dealloc(c c05AllocCase, lo, hi uint64) {
+// start is concrete (the allocator keeps per-group maps keyed by the group of each block; a symbolic
+// start would make the map keys symbolic), the length is symbolic.
+func c05Dealloc(c c05AllocCase, start, hi uint64) {
 	fx := c05NewFixture(c.bs, c.bpg, c.blocks, c.ipg, c.flex, c.csum, c.marks, nil)
 	before := c05Snapshot(fx.dev.img)
 	g0 := c05ReadGeo(before)
 	freeBefore := g0.freeBlocksSB()
-	start := vp.U64("start")
 	count := vp.U16("count")
-	vp.Assume(start >= lo)
 	vp.Assume(count >= 1)
 	vp.Assume(uint64(count) <= uint64(c.maxBlocks))
 	vp.Assume(start+uint64(count) <= hi)
@@ -227,13 +227,13 @@ func c05Dealloc(c c05AllocCase, lo, hi uint64) {
 // 1 KiB blocks, flex_bg, 3 groups: blocks 497..522 in use (bits 240..255 of group 1, bits 0..9 of group 2)
 func VP_C05_dealloc_1k() {
 	c05Dealloc(c05AllocCase{bs: 1024, bpg: 256, blocks: 768, ipg: 32, flex: 8, csum: true,
-		marks: []c05Mark{{1, 240, 256}, {2, 0, 10}}, maxBlocks: 6, windows: []c05Mark{{1, 240, 256}, {2, 0, 10}}}, 497, 523)
+		marks: []c05Mark{{1, 240, 256}, {2, 0, 10}}, maxBlocks: 8, windows: []c05Mark{{1, 240, 256}, {2, 0, 10}}}, 509, 523)
 }
 
 // 2 KiB blocks, flex_bg, 3 groups: blocks 500..520 in use; block 512 is the first block of group 2
 func VP_C05_dealloc_2k_group_start() {
 	c05Dealloc(c05AllocCase{bs: 2048, bpg: 256, blocks: 768, ipg: 32, flex: 8, csum: false,
-		marks: []c05Mark{{1, 240, 256}, {2, 0, 10}}, maxBlocks: 5, windows: []c05Mark{{1, 240, 256}, {2, 0, 10}}}, 500, 520)
+		marks: []c05Mark{{1, 240, 256}, {2, 0, 10}}, maxBlocks: 8, windows: []c05Mark{{1, 240, 256}, {2, 0, 10}}}, 508, 520)
 }
 
 // c05AllocInode: allocateInode(parent, 0) where the in-use state of inodes 11..32 of group 0 is arbitrary.
@@ -313,9 +313,9 @@ func c05AllocInode(groups int, fullSecond bool) {
 	}
 }
 
-func VP_C05_inode_alloc_1group()       { c05AllocInode(1, false) }
-func VP_C05_inode_alloc_2groups()      { c05AllocInode(2, false) }
-func VP_C05_inode_alloc_2groups_full() { c05AllocInode(2, true) }
+func VP_C05_inode_alloc_1group() { c05AllocInode(1, false) }
+func VP_C05_inode_alloc_spill()  { c05AllocInode(2, false) }
+func VP_C05_inode_alloc_full()   { c05AllocInode(2, true) }
 
 // C05.index_*: the group-index functions are inverse to the per-group numbering.
 // inode n = idx + ipg*group + 1 (allocateInode) <-> blockGroupForInode(n) = group;
